@@ -238,6 +238,12 @@ pub fn valid_case(r: &Req) -> bool {
     if int_t && (xs.iter().any(|x| x.contains('/')) || scalars.iter().any(|x| x.contains('/'))) {
         return false;
     }
+    // one infinity at most, float encodings, series only (the model reads +-inf as +-2^1100, so a
+    // difference or ratio of two infinities would be a number there and NaN in IEEE arithmetic)
+    let n_inf = xs.iter().filter(|x| x.ends_with("inf")).count();
+    if n_inf > 1 || scalars.iter().any(|x| x.ends_with("inf")) || (n_inf == 1 && int_t) {
+        return false;
+    }
     if t == "i32" {
         // a plain integer cannot be null, and `T::none()` is not defined for it
         if xs.iter().any(|x| *x == "_") || scalars.iter().any(|x| *x == "_") {
@@ -466,6 +472,29 @@ pub fn generate(tier: &str, rng: &mut Rng) -> (Vec<String>, bool) {
             }
         }
     }
+    // one infinity among finite values and nulls: an infinite element is an observation, not a null
+    for len in 1..=(if thorough { 5 } else { 4 }) {
+        for rest in all_series(alpha, len - 1) {
+            for pos in 0..len {
+                for (gi, inf) in ["inf", "-inf"].iter().enumerate() {
+                    let mut xs = rest.clone();
+                    xs.insert(pos, inf.to_string());
+                    let t = ["f64", "of64"][(pos + gi + len) % 2];
+                    let x = join(&xs);
+                    for n in [-2i32, -1, 1, 2] {
+                        out.push(format!("vpct_change t={} b=vec lag={} xs={}", t, n, x));
+                        out.push(format!("vdiff t=f64 b=vec lag={} v=_ xs={}", n, x));
+                        out.push(format!("vshift t={} lag={} v=7 xs={}", t, n, x));
+                    }
+                    out.push(format!("ffill t={} v=- xs={}", t, x));
+                    out.push(format!("bfill t={} v=7 xs={}", t, x));
+                    out.push(format!("vabs t={} xs={}", t, x));
+                    out.push(format!("vclip t={} lo=-1 hi=2 xs={}", t, x));
+                    out.push(format!("vclip t={} lo=_ hi=_ xs={}", t, x));
+                }
+            }
+        }
+    }
     // ---- structured random stream ----------------------------------------------------------
     let n_rand = if thorough { 40000 } else { 6000 };
     let max_len = if thorough { 100 } else { 40 };
@@ -559,7 +588,7 @@ pub fn rule(tier: &str) -> String {
     let thorough = tier == "thorough";
     let (len_lag, len_plain) = if thorough { (6, 6) } else { (4, 5) };
     format!(
-        "exhaustive: every series over {{null,-2,0,3}} of length 0..={len_lag} x (shift, vshift, vdiff, vpct_change) x every lag n in -len-3..=len+3 and i32::MIN, i32::MAX x fill in {{omitted, null, 7}} (shift: {{null, 7}}); the same series x (ffill_mask, bfill_mask, fill_mask) x 6 mask predicates x fill values; x vclip with lower, upper in {{null,-3,-2,-1,0,3,4}}^2 (every order relation to the data and to each other, null bounds); every series of length 0..={len_plain} x ffill, bfill, fill, abs, vabs; element type rotated over f64 / Option<f64> / i32 / Option<i32> (plain i32 only where no null occurs), input backend of the view-based vdiff / vpct_change rotated over 14 backends (Vec, [T;N], Arc<Vec>, VecDeque at head offsets 0/1/3, Arc<VecDeque>, Array1, ArrayViewMut1, ArrayView1 with step 1,2,3,-1,-2; a bare [T] cannot call them) and, for every series of length <= 2, all 14 backends x all lags. random: {} cases, length <= {}, values k/8 with |k| <= 64 or integers, 9 null patterns, lags incl. 0, +-len and the i32 extremes; every 7th request repeated at scales 2^-40..2^-60 and every 23rd lagged one (every 5th vpct_change; float types) in the subnormal range (2^-1060). Iterators are drained with plain next() capped at len+8 items. non-trivial = len >= 2 and a non-null output.",
+        "exhaustive: every series over {{null,-2,0,3}} of length 0..={len_lag} x (shift, vshift, vdiff, vpct_change) x every lag n in -len-3..=len+3 and i32::MIN, i32::MAX x fill in {{omitted, null, 7}} (shift: {{null, 7}}); the same series x (ffill_mask, bfill_mask, fill_mask) x 6 mask predicates x fill values; x vclip with lower, upper in {{null,-3,-2,-1,0,3,4}}^2 (every order relation to the data and to each other, null bounds); every series of length 0..={len_plain} x ffill, bfill, fill, abs, vabs; element type rotated over f64 / Option<f64> / i32 / Option<i32> (plain i32 only where no null occurs), input backend of the view-based vdiff / vpct_change rotated over 14 backends (Vec, [T;N], Arc<Vec>, VecDeque at head offsets 0/1/3, Arc<VecDeque>, Array1, ArrayViewMut1, ArrayView1 with step 1,2,3,-1,-2; a bare [T] cannot call them) and, for every series of length <= 2, all 14 backends x all lags. every series of length 1..=4 (5) over the same alphabet with exactly one element replaced by +inf or -inf (float encodings; the model reads +-inf as +-2^1100) x vpct_change, vdiff, vshift at lags +-1, +-2, ffill, bfill, vabs, vclip. random: {} cases, length <= {}, values k/8 with |k| <= 64 or integers, 9 null patterns, lags incl. 0, +-len and the i32 extremes; every 7th request repeated at scales 2^-40..2^-60 and every 23rd lagged one (every 5th vpct_change; float types) in the subnormal range (2^-1060). Iterators are drained with plain next() capped at len+8 items. non-trivial = len >= 2 and a non-null output.",
         if thorough { 40000 } else { 6000 },
         if thorough { 100 } else { 40 }
     )
